@@ -101,6 +101,8 @@ func init() {
 			msend("M send by[A,D] outsider", A, D),
 			{Name: "A lock 10 BIP due+2", Type: transaction.TypeLock, Signer: A, Data: transaction.LockData{DueBlock: uint32(h0 + 2), Coin: 0, Value: e18(10)}},
 			{Name: "A lock 10 COINA due+3", Type: transaction.TypeLock, Signer: A, Data: transaction.LockData{DueBlock: uint32(h0 + 3), Coin: PayCoinA, Value: e18(10)}},
+			{Name: "A lock 10 TOKA due+3", Type: transaction.TypeLock, Signer: A, Data: transaction.LockData{DueBlock: uint32(h0 + 3), Coin: PayTokA, Value: e18(10)}},
+			{Name: "A lock 10 BIP due+1 (due = first block)", Type: transaction.TypeLock, Signer: A, Data: transaction.LockData{DueBlock: uint32(h0 + 1), Coin: 0, Value: e18(10)}},
 			redeem("B redeems A's check", B, chk, "pw", 0, 1),
 			redeem("C redeems A's check", C, chk, "pw", 0, 1),
 			redeem("B redeems wrong password", B, chk, "bad", 0, 1),
